@@ -13,7 +13,25 @@ fn usage() -> ! {
     std::process::exit(2)
 }
 
+/// A logger that discards everything: the subject logs through the `log` facade, and whether a
+/// logger is listening (and at which level) is part of its environment.  Checks switch the level
+/// with `log::set_max_level`; the default is Off, as in a process without any logger.
+struct NullLogger;
+impl log::Log for NullLogger {
+    fn enabled(&self, _: &log::Metadata) -> bool {
+        true
+    }
+    fn log(&self, r: &log::Record) {
+        // format the arguments as a real logger would, then drop the text
+        let _ = format!("{}", r.args());
+    }
+    fn flush(&self) {}
+}
+static LOGGER: NullLogger = NullLogger;
+
 fn main() {
+    let _ = log::set_logger(&LOGGER);
+    log::set_max_level(log::LevelFilter::Off);
     let args: Vec<String> = std::env::args().skip(1).collect();
     if args.is_empty() {
         usage();
